@@ -131,28 +131,44 @@ def io3(ctx, prog, cfg):
                   "`read` mutates the buffer other than by one truncate_front: %s" % [w[1] for _, w in ws], "one mutation: truncate_front", cfg)
     f = ctx.need_fn(prog, BR + "fill_buf", "IO3")
     if f is not None:
-        shapes.must_match(ctx, "IO3", prog, f.short,
-                          [r"call CircularBuffer::as_slices\(self\)", r"guard <\[T\]>::is_empty\(%s\)" % front,
-                           r"return Result::Ok\{0: %s\}" % front, r"return Result::Ok\{0: %s\}" % back], cfg,
-                          "one as_slices(); branch on front.is_empty()", "`fill_buf` does not choose between the two results of one as_slices() by front.is_empty()", guards=True)
+        # fact-based: one as_slices(self); every value that can become the payload of the returned Ok is `front` where
+        # the facts say front is non-empty, or `back` where they say front is empty — however the choice is spelled
+        # (two `Ok(..)` returns, or one `Ok(if .. { front } else { back })`)
+        asl = f.calls_to("CircularBuffer::as_slices", unwind=False)
+        others = [mir.callee_path(t_) for b_, t_ in f.calls(False) if mir.callee_short(t_) not in ("CircularBuffer::as_slices",) and mir.callee_path(t_) not in ("<[T]>::is_empty", "<[T]>::len")]
+        ctx.check(len(asl) == 1 and not others, "IO3", f.short, "one as_slices(); nothing else", f.loc,
+                  "`fill_buf` does not work on the two results of exactly one as_slices() call (%d calls; other calls: %s)" % (len(asl), others[:3]),
+                  "one as_slices(self)", cfg)
         G = guards.Guards(f)
+        seen = set()
         for (b, i, k, payload) in common.ret_assignments(f):
             if k != "stmt":
+                ctx.violate("IO3", f.short, "returns Ok(front|back)", short_loc(f, b), "`fill_buf` returns the result of another call", cfg)
                 continue
             v = common.variant_of_rv(payload)
             if not v or v[0] != "Ok":
+                ctx.violate("IO3", f.short, "returns Ok(front|back)", short_loc(f, b, i), "`fill_buf` can return something other than Ok(..)", cfg)
                 continue
-            e = mir.strip_casts(f.deep_simplify(f.operand_expr(v[1][0]["op"], b, i)))
-            which = e[2] if isinstance(e, tuple) and e[0] == "field" else None
-            front_len = ("pcall", "<[T]>::len", (("field", ("call", "CircularBuffer::as_slices", (("param", 1),), 0), "0"),))
-            facts = G.facts_at(b)
-            empty_front = any(a[0] == "le" and a[2] == guards.ZERO and a[3] == 0 and isinstance(a[1], tuple) and a[1][0] == "pcall" for a in facts)
-            nonempty_front = any(a[0] == "le" and a[1] == guards.ZERO and a[3] == -1 and isinstance(a[2], tuple) and a[2][0] == "pcall" for a in facts)
-            ok = (which == "0" and nonempty_front) or (which == "1" and empty_front)
-            ctx.check(ok, "IO3", f.short, "Ok(%s) under front %s" % ("front" if which == "0" else "back", "non-empty" if which == "0" else "empty"), short_loc(f, b, i),
-                      "`fill_buf` returns %s although front is %s: a non-empty buffer can yield an empty slice, which BufRead readers "
-                      "take for end of stream" % ("front" if which == "0" else "back", "empty" if which == "0" else "non-empty"),
-                      "returns front iff front is non-empty", cfg)
+            op = v[1][0]["op"]
+            sites = [(b, mir.strip_casts(f.deep_simplify(f.operand_expr(op, b, i))))]
+            if isinstance(sites[0][1], tuple) and sites[0][1][:1] == ("phi",) and op.get("k") in ("move", "copy") and not op["place"]["proj"]:
+                # the payload is chosen earlier: judge each definition of that local where it is made
+                n_ = op["place"]["local"]
+                sites = [(db, mir.strip_casts(f.deep_simplify(f.rvalue_expr(st_["rv"], db, di))))
+                         for db, di, st_, it_ in f.positions(False) if not it_ and st_["k"] == "assign" and st_["place"]["local"] == n_ and not st_["place"]["proj"]]
+            for (sb, e) in sites:
+                which = e[2] if isinstance(e, tuple) and e[0] == "field" and isinstance(e[1], tuple) and e[1][:2] == ("call", "CircularBuffer::as_slices") else None
+                facts = G.facts_at(sb)
+                empty_front = any(a[0] == "le" and a[2] == guards.ZERO and a[3] == 0 and isinstance(a[1], tuple) and a[1][0] == "pcall" for a in facts)
+                nonempty_front = any(a[0] == "le" and a[1] == guards.ZERO and a[3] == -1 and isinstance(a[2], tuple) and a[2][0] == "pcall" for a in facts)
+                ok = (which == "0" and nonempty_front) or (which == "1" and empty_front)
+                seen.add(which)
+                ctx.check(ok, "IO3", f.short, "Ok(%s) under front %s" % ("front" if which == "0" else "back", "non-empty" if which == "0" else "empty"), short_loc(f, sb),
+                          "`fill_buf` returns %s although front is %s: a non-empty buffer can yield an empty slice, which BufRead readers "
+                          "take for end of stream" % ("front" if which == "0" else ("back" if which == "1" else "`%s`" % mir.fmt(e, f)[:40]), "empty" if which == "0" else "not known to be empty"),
+                          "returns front iff front is non-empty", cfg)
+        ctx.check({"0", "1"} <= seen, "IO3", f.short, "both pieces can be returned", f.loc, "`fill_buf` never returns %s" % ("back" if "1" not in seen else "front"),
+                  "front and back are both returned", cfg, nontrivial=False)
 
 
 def io4(ctx, prog, cfg):
